@@ -16,6 +16,9 @@
 //  * orthogonality 1e-10, normalisation 1e-12 (Ritz vectors of one orthonormal basis; explicit normalize at the end).
 #include "vv_common.h"
 
+#include <fcntl.h>
+#include <sys/wait.h>
+
 #include <votca/xtp/davidsonsolver.h>
 #include <votca/xtp/eigen.h>
 #include <votca/xtp/logger.h>
@@ -134,6 +137,7 @@ static bool diag_has_ties(const Mat &A) {
 
 // ------------------------------------------------------------------ running the solver
 struct Run {
+  bool died = false;
   bool threw = false;
   std::string what;
   Eigen::ComputationInfo info = Eigen::NoConvergence;
@@ -149,7 +153,119 @@ static double tol_of(const std::string &t) {
   if (t == "strict") return 1e-5;
   return 1e-9;  // lapack
 }
-static Run run_solver(const Mat &A, Index neigen, const json &opt, bool ham) {
+static Index size_update(const std::string &u, Index neigen) {
+  if (u == "min") return neigen;
+  if (u == "max") return 2 * neigen;
+  return neigen < 20 ? Index(1.5 * double(neigen)) : neigen + 10;
+}
+static Index eff_space(Index space, Index neigen, Index n) {
+  if (space < neigen) space = 5 * neigen;
+  return std::min(space, n);
+}
+// largest number of basis vectors the solver can hold at any time (before the Gram-Schmidt step of an extension)
+static Index max_cols(const json &opt, Index k, Index n) {
+  Index su = size_update(opt.at("upd"), k);
+  return std::max(eff_space(opt.at("space"), k, n), 2 * k + su) + su;
+}
+
+// Work that may abort (Eigen assertion on NaN input, sanitizer report) runs in a forked child: the abort becomes a
+// proper failure key instead of killing the campaign, and the matrix dumps the solver prints to stderr are dropped.
+struct Blob {
+  bool died = false;
+  std::string note;
+  std::vector<double> d;
+  std::string s;
+};
+static bool write_all(int fd, const void *p, size_t n) {
+  const char *c = static_cast<const char *>(p);
+  while (n > 0) {
+    ssize_t w = write(fd, c, n);
+    if (w <= 0) return false;
+    c += w;
+    n -= size_t(w);
+  }
+  return true;
+}
+static bool read_all(int fd, void *p, size_t n) {
+  char *c = static_cast<char *>(p);
+  while (n > 0) {
+    ssize_t w = read(fd, c, n);
+    if (w <= 0) return false;
+    c += w;
+    n -= size_t(w);
+  }
+  return true;
+}
+static Blob forked(const std::function<void(std::vector<double> &, std::string &)> &fn) {
+  Blob B;
+  if (getenv("VV_C09_INPROC")) {
+    fn(B.d, B.s);
+    return B;
+  }
+  int fd[2];
+  if (pipe(fd) != 0) {
+    B.died = true;
+    B.note = "pipe failed";
+    return B;
+  }
+  fflush(nullptr);
+  pid_t pid = fork();
+  if (pid == 0) {
+    close(fd[0]);
+    st().in_case = false;  // the child must not write the parent's crash / stats files
+    st().out.clear();
+    st().crash.clear();
+    if (!getenv("VV_C09_DEBUG")) {
+      int dn = open("/dev/null", O_WRONLY);
+      if (dn >= 0) {
+        dup2(dn, 2);
+        dup2(dn, 1);
+      }
+    }
+    std::vector<double> d;
+    std::string str;
+    fn(d, str);
+    size_t hdr[2] = {d.size(), str.size()};
+    write_all(fd[1], hdr, sizeof hdr);
+    write_all(fd[1], d.data(), d.size() * sizeof(double));
+    write_all(fd[1], str.data(), str.size());
+    close(fd[1]);
+    _exit(0);
+  }
+  close(fd[1]);
+  size_t hdr[2] = {0, 0};
+  bool ok = pid > 0 && read_all(fd[0], hdr, sizeof hdr);
+  if (ok) {
+    B.d.resize(hdr[0]);
+    B.s.resize(hdr[1]);
+    ok = read_all(fd[0], B.d.data(), hdr[0] * sizeof(double)) && read_all(fd[0], &B.s[0], hdr[1]);
+  }
+  close(fd[0]);
+  int status = 0;
+  if (pid > 0) waitpid(pid, &status, 0);
+  if (!ok || !WIFEXITED(status) || WEXITSTATUS(status) != 0) {
+    B.died = true;
+    B.note = WIFSIGNALED(status) ? fmt("killed by signal %d", WTERMSIG(status)) : fmt("exit status %d", WEXITSTATUS(status));
+  }
+  return B;
+}
+
+// records every block the solver multiplies with the operator (= every vector that ever entered the search space)
+class RecOp final : public votca::xtp::MatrixFreeOperator {
+ public:
+  RecOp(const Mat &A, std::vector<Mat> *rec) : A_(A), rec_(rec) { set_size(A.rows()); }
+  Eigen::MatrixXd matmul(const Eigen::MatrixXd &input) const override {
+    rec_->push_back(input);
+    return A_ * input;
+  }
+  Eigen::VectorXd diagonal() const override { return A_.diagonal(); }
+
+ private:
+  const Mat &A_;
+  std::vector<Mat> *rec_;
+};
+
+static Run run_solver_inproc(const Mat &A, Index neigen, const json &opt, bool ham, std::vector<Mat> *record = nullptr) {
   Run R;
   votca::xtp::Logger log;  // default: messages collected in memory, nothing printed
   votca::xtp::DavidsonSolver DS(log);
@@ -161,7 +277,10 @@ static Run run_solver(const Mat &A, Index neigen, const json &opt, bool ham) {
   if (space > 0) DS.set_max_search_space(space);
   if (ham) DS.set_matrix_type("HAM");
   try {
-    if (opt.value("mf", false)) {
+    if (record) {
+      RecOp op(A, record);
+      DS.solve(op, neigen);
+    } else if (opt.value("mf", false)) {
       DenseOp op(A);
       DS.solve(op, neigen);
       R.mf_calls = op.calls;
@@ -171,29 +290,185 @@ static Run run_solver(const Mat &A, Index neigen, const json &opt, bool ham) {
   } catch (const std::runtime_error &e) {
     R.threw = true;
     R.what = e.what();
+    if (getenv("VV_C09_DEBUG")) std::cerr << log << "\nEXCEPTION " << R.what << "\n";
     return R;
   }
   R.info = DS.info();
   R.lambda = DS.eigenvalues();
   R.vecs = DS.eigenvectors();
   R.iters = DS.num_iterations();
+  if (getenv("VV_C09_DEBUG")) std::cerr << log << "\ninfo=" << R.info << " lambda=" << R.lambda.transpose() << "\n";
   return R;
 }
 
-static Index size_update(const std::string &u, Index neigen) {
-  if (u == "min") return neigen;
-  if (u == "max") return 2 * neigen;
-  return neigen < 20 ? Index(1.5 * double(neigen)) : neigen + 10;
-}
-static Index eff_space(Index space, Index neigen, Index n) {
-  if (space < neigen) space = 5 * neigen;
-  return std::min(space, n);
+static Run run_solver(const Mat &A, Index neigen, const json &opt, bool ham) {
+  Blob B = forked([&](std::vector<double> &d, std::string &str) {
+    Run C = run_solver_inproc(A, neigen, opt, ham);
+    d = {C.threw ? 1.0 : 0.0, double(C.info), double(C.iters), double(C.mf_calls), double(C.lambda.size()), double(C.vecs.rows()),
+         double(C.vecs.cols())};
+    d.insert(d.end(), C.lambda.data(), C.lambda.data() + C.lambda.size());
+    d.insert(d.end(), C.vecs.data(), C.vecs.data() + C.vecs.size());
+    str = C.what;
+  });
+  Run R;
+  if (B.died || B.d.size() < 7) {
+    R.died = true;
+    R.what = B.note;
+    return R;
+  }
+  R.threw = B.d[0] != 0;
+  R.info = Eigen::ComputationInfo(int(B.d[1]));
+  R.iters = Index(B.d[2]);
+  R.mf_calls = long(B.d[3]);
+  Index nl = Index(B.d[4]), rows = Index(B.d[5]), cols = Index(B.d[6]);
+  R.lambda = Eigen::Map<const Vec>(B.d.data() + 7, nl);
+  R.vecs = Eigen::Map<const Mat>(B.d.data() + 7 + nl, rows, cols);
+  R.what = B.s;
+  return R;
 }
 
-// checks shared by SYMM families.  `claim_lowest`: whether "success => lowest roots" is asserted for this case.
-static void check_symm(Result &r, const json &c, const Mat &A, const Run &R, bool claim_lowest, bool must_succeed) {
+// ------------------------------------------------------------------ diagnosis of a failing run (rare path)
+// The run is repeated with a recording operator.  From the recorded blocks the harness reconstructs the number of basis
+// vectors over time (exceeds n?), checks that all vectors added between two restarts are orthonormal to each other (they all
+// sit in the basis V at the same time) and computes the Ritz values of A on the span of EVERYTHING the solver ever saw.
+struct Diag {
+  bool ok = false;        // diagnosis available
+  bool same = false;      // the recorded rerun returned the same eigenvalues
+  bool exceeded = false;  // basis had more columns than the matrix has rows
+  double ortho_loss = 0;  // max |G^T G - I| over the vectors that coexist in V
+  Vec ritz_seen;          // SYMM only
+};
+static Diag diagnose(const Mat &A, Index k, const json &opt, bool ham, const Vec &lambda_main) {
+  Index n = A.rows();
+  Blob B = forked([&](std::vector<double> &d, std::string &) {
+    std::vector<Mat> rec;
+    Run C = run_solver_inproc(A, k, opt, ham, &rec);
+    std::vector<Mat> vb;  // blocks of basis vectors (HAM: every second product is A*(A V))
+    for (size_t i = 0; i < rec.size(); ++i)
+      if (!ham || i % 2 == 0) vb.push_back(rec[i]);
+    Index space = eff_space(opt.at("space"), k, n);
+    bool exceeded = false;
+    double loss = 0;
+    Index cols = 0;
+    std::vector<Mat> group;
+    auto check_group = [&]() {
+      Index tot = 0;
+      for (auto &g : group) tot += g.cols();
+      if (tot == 0) return;
+      Mat G(n, tot);
+      Index c0 = 0;
+      for (auto &g : group) {
+        G.middleCols(c0, g.cols()) = g;
+        c0 += g.cols();
+      }
+      Mat E = G.transpose() * G - Mat::Identity(tot, tot);
+      double m = E.cwiseAbs().maxCoeff();
+      if (!(m <= loss)) loss = std::isfinite(m) ? m : 1e300;
+    };
+    for (size_t t = 0; t < vb.size(); ++t) {
+      cols += vb[t].cols();
+      group.push_back(vb[t]);
+      if (cols > n) exceeded = true;
+      if (t > 0 && cols > space) {  // restart: V = [Ritz vectors | this block]
+        check_group();
+        group.clear();
+        group.push_back(vb[t]);
+        cols = 2 * k + vb[t].cols();
+      }
+    }
+    check_group();
+    std::vector<double> ritz;
+    if (!ham && !vb.empty() && loss < 1e200) {
+      Index tot = 0;
+      for (auto &g : vb) tot += g.cols();
+      Mat W(n, tot);
+      Index c0 = 0;
+      for (auto &g : vb) {
+        W.middleCols(c0, g.cols()) = g;
+        c0 += g.cols();
+      }
+      Eigen::ColPivHouseholderQR<Mat> qr(W);
+      qr.setThreshold(1e-10);
+      Index r = qr.rank();
+      Mat Q = qr.householderQ() * Mat::Identity(n, r);
+      Eigen::SelfAdjointEigenSolver<Mat> es(Q.transpose() * A * Q);
+      for (Index i = 0; i < std::min(k, r); ++i) ritz.push_back(es.eigenvalues()(i));
+    }
+    d = {exceeded ? 1.0 : 0.0, loss, double(ritz.size())};
+    d.insert(d.end(), ritz.begin(), ritz.end());
+    d.push_back(double(C.lambda.size()));
+    d.insert(d.end(), C.lambda.data(), C.lambda.data() + C.lambda.size());
+  });
+  Diag D;
+  if (B.died || B.d.size() < 4) return D;
+  D.ok = true;
+  D.exceeded = B.d[0] != 0;
+  D.ortho_loss = B.d[1];
+  Index nr = Index(B.d[2]);
+  D.ritz_seen = Eigen::Map<const Vec>(B.d.data() + 3, nr);
+  Index nl = Index(B.d[3 + nr]);
+  Vec l2 = Eigen::Map<const Vec>(B.d.data() + 4 + nr, nl);
+  D.same = nl == lambda_main.size() && (nl == 0 || (l2 - lambda_main).cwiseAbs().maxCoeff() <= 1e-9 * (1 + lambda_main.cwiseAbs().maxCoeff()));
+  return D;
+}
+
+static const char *K_UNSEEN = "Davidson/premature-success-unseen-root";
+static const char *K_GS = "Davidson/gramschmidt-dependency-undetected";
+static const char *K_OLSEN = "Davidson/olsen-nan-exact-diagonal";
+
+// does the initial guess (coordinate vectors of the lowest diagonal entries) contain a coordinate that is not coupled to
+// any other guess coordinate?  Then a Ritz value of iteration 0 equals that diagonal element exactly.
+static bool start_uncoupled(const Mat &A, Index k, bool ham) {
+  Index n = A.rows();
+  std::vector<Index> idx(static_cast<size_t>(n));
+  for (Index i = 0; i < n; ++i) idx[size_t(i)] = i;
+  std::stable_sort(idx.begin(), idx.end(), [&](Index a, Index b) { return A(a, a) < A(b, b); });
+  Index off = ham ? n / 2 : 0;
+  std::vector<Index> st_;
+  for (Index j = 0; j < 2 * k && off + j < n; ++j) st_.push_back(idx[size_t(off + j)]);
+  for (Index a : st_) {
+    bool coupled = false;
+    for (Index b : st_)
+      if (a != b && A(a, b) != 0.0) coupled = true;
+    if (!coupled) return true;
+  }
+  return false;
+}
+
+struct Ctx {
+  const json &c;
+  const Mat &A;
+  Index k;
+  bool ham;
+  const Run &R;
+};
+// attribute a symptom to a root cause where the diagnosis allows it
+static std::string attribute(const Ctx &x, const std::string &symptom, std::string &why) {
+  const json &opt = x.c.at("opt");
+  if ((x.R.threw || x.R.died) && opt.at("corr") == "OLSEN" && start_uncoupled(x.A, x.k, x.ham)) {
+    why = " [OLSEN correction and an initial-guess coordinate that is uncoupled from the other guess coordinates: Ritz value == diagonal element]";
+    return K_OLSEN;
+  }
+  Diag D = diagnose(x.A, x.k, opt, x.ham, x.R.lambda);
+  if (D.ok && (D.exceeded || D.ortho_loss > 1e-8)) {
+    why = fmt(" [diagnosis: basis %s, max |V^T V - I| among coexisting basis vectors = %.3e]",
+              D.exceeded ? "grew beyond the matrix dimension" : "stayed within the matrix dimension", D.ortho_loss);
+    return K_GS;
+  }
+  if (!D.ok) why = " [diagnosis rerun died]";
+  return symptom;
+}
+static void fail_attr(Result &r, const Ctx &x, const std::string &symptom, const std::string &msg) {
+  std::string why;
+  std::string key = attribute(x, symptom, why);
+  r.fail(key, msg + why);
+}
+
+// checks shared by SYMM families.
+static void check_symm(Result &r, const json &c, const Mat &A, const Run &R, bool must_succeed) {
   Index n = A.rows(), k = c.at("neigen");
   const json &opt = c.at("opt");
+  Ctx X{c, A, k, false, R};
   double tol = tol_of(opt.at("tol"));
   double normF = A.norm();
   Index space = eff_space(opt.at("space"), k, n);
@@ -220,6 +495,7 @@ static void check_symm(Result &r, const json &c, const Mat &A, const Run &R, boo
   if (degenerate) r.cls("spectrum:degenerate");
   if (mu(0) < 0) r.cls("spectrum:negative");
   if (restart_certain) r.cls("restart-certain");
+  if (max_cols(opt, k, n) > n) r.cls("basis-may-outgrow-n");
   r.nontrivial = restart_certain || cluster || degenerate;
   r.cls(std::string("opt:") + opt.at("corr").get<std::string>() + "/" + opt.at("upd").get<std::string>());
   r.cls(std::string("tol:") + opt.at("tol").get<std::string>());
@@ -235,32 +511,36 @@ static void check_symm(Result &r, const json &c, const Mat &A, const Run &R, boo
     r.fail("harness-internal", "matrix-free operator was never called");
     return;
   }
+  std::string cfg = fmt(" (n=%ld neigen=%ld %s/%s/%s space=%ld iter_max=%ld iters=%ld%s)", long(n), long(k),
+                        opt.at("corr").get<std::string>().c_str(), opt.at("upd").get<std::string>().c_str(),
+                        opt.at("tol").get<std::string>().c_str(), long(space), long(opt.at("iter").get<Index>()), long(R.iters),
+                        opt.value("mf", false) ? " matrix-free" : "");
 
   if (R.info == Eigen::Success) {
     r.cls("Success");
     r.cls(R.iters <= 5 ? "iters<=5" : R.iters <= 10 ? "iters<=10" : R.iters <= 25 ? "iters<=25" : "iters>25");
     for (Index i = 0; i < k; ++i)
       if (!std::isfinite(R.lambda(i)) || !R.vecs.col(i).allFinite()) {
-        r.fail("Davidson/non-finite", fmt("root %ld is not finite although info()==Success", long(i)));
+        fail_attr(r, X, "Davidson/non-finite", fmt("root %ld is not finite although info()==Success", long(i)) + cfg);
         return;
       }
     // ascending
     for (Index i = 0; i + 1 < k; ++i)
       if (R.lambda(i + 1) < R.lambda(i)) {
-        r.fail("Davidson/order", fmt("eigenvalues not ascending: lambda[%ld]=%.17g > lambda[%ld]=%.17g", long(i), R.lambda(i),
-                                     long(i + 1), R.lambda(i + 1)));
+        fail_attr(r, X, "Davidson/order", fmt("eigenvalues not ascending: lambda[%ld]=%.17g > lambda[%ld]=%.17g", long(i), R.lambda(i),
+                                               long(i + 1), R.lambda(i + 1)) + cfg);
         return;
       }
     // normalised / orthogonal
     Mat G = R.vecs.transpose() * R.vecs;
     for (Index i = 0; i < k; ++i) {
       if (std::fabs(G(i, i) - 1.0) > 1e-12) {
-        r.fail("Davidson/normalisation", fmt("|v_%ld|^2 = %.17g", long(i), G(i, i)));
+        fail_attr(r, X, "Davidson/normalisation", fmt("|v_%ld|^2 = %.17g", long(i), G(i, i)) + cfg);
         return;
       }
       for (Index j = 0; j < i; ++j)
         if (std::fabs(G(i, j)) > 1e-10) {
-          r.fail("Davidson/orthogonality", fmt("v_%ld . v_%ld = %.3e (limit 1e-10)", long(i), long(j), G(i, j)));
+          fail_attr(r, X, "Davidson/orthogonality", fmt("v_%ld . v_%ld = %.3e (limit 1e-10)", long(i), long(j), G(i, j)) + cfg);
           return;
         }
     }
@@ -269,43 +549,58 @@ static void check_symm(Result &r, const json &c, const Mat &A, const Run &R, boo
     for (Index i = 0; i < k; ++i) {
       double rn = Res.col(i).norm();
       if (!(rn < tol + slack)) {
-        r.fail("Davidson/residual", fmt("root %ld: |A v - lambda v| = %.6e, tolerance %.1e (+ rounding slack %.2e), n=%ld iters=%ld",
-                                        long(i), rn, tol, slack, long(n), long(R.iters)));
+        fail_attr(r, X, "Davidson/residual",
+                  fmt("info()==Success, root %ld: |A v - lambda v| = %.6e, tolerance %.1e (+ rounding slack %.2e)", long(i), rn, tol, slack) + cfg);
         return;
       }
     }
-    // lowest eigenvalues (Kahan bound with my own residual matrix)
+    // lowest eigenvalues: the largest deviation the convergence criterion permits (Kahan, residual norms < tol)
     Eigen::JacobiSVD<Mat> svd(R.vecs);
     double smin = svd.singularValues()(k - 1);
-    double bound = std::sqrt(2.0) * Res.norm() / smin + eig_abs + slack;
+    double bound = std::sqrt(2.0 * double(k)) * (tol + slack) / smin + eig_abs;
+    double bound_actual = std::sqrt(2.0) * Res.norm() / smin + eig_abs + slack;
     Index bad = -1;
-    for (Index i = 0; i < k; ++i)
-      if (std::fabs(R.lambda(i) - mu(i)) > bound) {
-        bad = i;
-        break;
-      }
+    bool beyond_actual = false;
+    for (Index i = 0; i < k; ++i) {
+      double dv = std::fabs(R.lambda(i) - mu(i));
+      if (dv > bound && bad < 0) bad = i;
+      if (dv > bound_actual) beyond_actual = true;
+    }
+    if (bad < 0 && beyond_actual) r.cls("lowest:within-tolerance-but-a-neighbouring-eigenvalue");
     if (bad >= 0) {
       bool reducible = components(A) > 1;
-      std::string m = fmt("info()==Success but root %ld = %.12g while the %ld-th lowest eigenvalue is %.12g (Kahan bound %.3e; n=%ld "
-                          "neigen=%ld iters=%ld, %s)",
-                          long(bad), R.lambda(bad), long(bad), mu(bad), bound, long(n), long(k), long(R.iters),
-                          reducible ? "matrix is exactly reducible" : "matrix is irreducible");
-      if (reducible) {
-        if (claim_lowest)
-          r.fail(K_HIDDEN, m);
-        else
-          r.cls("excluded-known:hidden-root(lowest-claim-skipped)");
-      } else {
-        r.fail("Davidson/success-not-lowest", m);
+      std::string m = fmt("info()==Success but root %ld = %.12g while the %ld-th lowest eigenvalue is %.12g (permitted deviation %.3e; %s)",
+                          long(bad), R.lambda(bad), long(bad), mu(bad), bound,
+                          reducible ? "matrix is exactly reducible" : "matrix is irreducible") + cfg;
+      std::string why;
+      std::string key = attribute(X, "Davidson/success-not-lowest", why);
+      if (key == "Davidson/success-not-lowest") {
+        // did the solver return the lowest Ritz values of everything it ever had in its search space?
+        Diag D = diagnose(A, k, opt, false, R.lambda);
+        bool best_seen = D.ok && D.same && D.ritz_seen.size() == k;
+        for (Index i = 0; best_seen && i < k; ++i)
+          if (R.lambda(i) > D.ritz_seen(i) + bound) best_seen = false;
+        if (best_seen) {
+          key = reducible ? K_HIDDEN : K_UNSEEN;
+          why = " [diagnosis: the returned values are the lowest Ritz values of A on the span of all vectors the solver ever multiplied; "
+                "the missing eigenvector never became visible before all residuals passed]";
+        }
       }
-      if (!r.ok) return;
-    } else if (!claim_lowest) {
-      r.cls("reducible:lowest-found-anyway");
+      bool tolerated = false;
+      if (c.contains("tolerate"))
+        for (auto &t : c["tolerate"])
+          if (t == key) tolerated = true;
+      if (tolerated)
+        r.cls("excluded-known:" + key);
+      else {
+        r.fail(key, m + why);
+        return;
+      }
     }
   } else {
     r.cls("NoConvergence");
     if (R.info != Eigen::NoConvergence) {
-      r.fail("Davidson/status", fmt("info() = %d, neither Success nor NoConvergence", int(R.info)));
+      r.fail("Davidson/status", fmt("info() = %d, neither Success nor NoConvergence", int(R.info)) + cfg);
       return;
     }
     // unconverged roots are not passed off: every returned column is either zeroed (documented) or a converged pair
@@ -320,23 +615,20 @@ static void check_symm(Result &r, const json &c, const Mat &A, const Run &R, boo
       double vn = R.vecs.col(i).norm();
       double rn = Res.col(i).norm();
       if (!(std::fabs(vn - 1) <= 1e-12) || !(rn < tol + slack)) {
-        r.fail("Davidson/unconverged-root-returned",
-               fmt("info()==NoConvergence, root %ld (lambda=%.12g, |v|=%.6g) is not zeroed and has residual %.3e >= tol %.1e",
-                   long(i), R.lambda(i), vn, rn, tol));
+        fail_attr(r, X, "Davidson/unconverged-root-returned",
+                  fmt("info()==NoConvergence, root %ld (lambda=%.12g, |v|=%.6g) is not zeroed and has residual %.3e >= tol %.1e",
+                      long(i), R.lambda(i), vn, rn, tol) + cfg);
         return;
       }
     }
     if (zeroed == 0) {
-      r.fail("Davidson/status", "info()==NoConvergence but every requested root is returned as converged");
+      fail_attr(r, X, "Davidson/status", "info()==NoConvergence but every requested root is returned as converged" + cfg);
       return;
     }
     r.cls(zeroed == k ? "noconv:all-zeroed" : "noconv:partially-converged");
     if (must_succeed) {
-      r.fail("Davidson/F2-no-success",
-             fmt("diagonally dominant matrix (gap>=1, off-diagonal row sums<=%.3g), n=%ld neigen=%ld %s/%s/%s: no convergence within "
-                 "%ld iterations",
-                 c.value("offscale", 0.0), long(n), long(k), opt.at("corr").get<std::string>().c_str(),
-                 opt.at("upd").get<std::string>().c_str(), opt.at("tol").get<std::string>().c_str(), long(opt.at("iter").get<Index>())));
+      fail_attr(r, X, "Davidson/F2-no-success",
+                fmt("diagonally dominant matrix (gap>=1, off-diagonal row sums<=%.3g): no convergence", c.value("offscale", 0.0)) + cfg);
       return;
     }
   }
@@ -364,8 +656,9 @@ static json gen_opt(bool default_space, Index neigen, Index n, int iter_lo, int 
 
 // n and neigen: neigen <= n/4 (quantifier), and room for one extension beyond the search space limit
 static void gen_sizes(int nmax, Index &n, Index &k) {
-  n = rcount(4, nmax);
-  if (rbool(15)) n = ri(4, 12);
+  int nmin = known(K_GS) ? 8 : 4;  // with the basis-outgrows-n class excluded, neigen=1 needs n >= 7
+  n = rcount(nmin, nmax);
+  if (rbool(15)) n = ri(nmin, 12);
   k = ri(1, int(std::max<Index>(1, n / 4)));
   if (rbool(50)) k = std::min<Index>(k, ri(1, 4));
 }
@@ -411,26 +704,49 @@ static std::vector<double> gen_spectrum(Index n) {
   return l;
 }
 
-static void make_irreducible_if_known(json &c) {
-  // known finding: Success with a hidden root on exactly reducible matrices (and, by the same mechanism, when tied
-  // diagonal entries make the preconditioner preserve a symmetry) -> excluded by construction from the main search
-  if (!known(K_HIDDEN)) return;
-  Mat A = build_symm(c);
-  Index n = A.rows();
-  bool changed = false;
-  if (components(A) > 1) {
-    if (!c.contains("trip")) c["trip"] = json::array();
-    for (Index i = 0; i + 1 < n; ++i) c["trip"].push_back({i, i + 1, 1.0 / 64});
-    c["offscale"] = c.value("offscale", 0.0);
-    changed = true;
+// Exclusion of the confirmed findings by construction (only when they are listed as known; a replay file is always
+// evaluated in full because these decisions live in the generator and are recorded in the case).
+static void apply_known(json &c, bool keep_structure) {
+  Index n = c.at("n"), k = c.at("neigen");
+  json &opt = c["opt"];
+  if (known(K_GS)) {
+    // the basis must never outgrow the matrix dimension: lower neigen, then the search space / update size
+    while (max_cols(opt, k, n) > n && k > 1) --k;
+    if (max_cols(opt, k, n) > n) {
+      opt["space"] = 0;
+      opt["upd"] = "min";
+    }
+    if (k != c.at("neigen").get<Index>()) c["fitted"] = true;
+    c["neigen"] = k;
   }
-  if (diag_has_ties(A)) {
-    std::vector<double> d = c["diag"].get<std::vector<double>>();
-    for (size_t i = 0; i < d.size(); ++i) d[i] += double(i + 1) / 4096.0;
-    c["diag"] = d;
-    changed = true;
+  if (!keep_structure) {
+    Mat A = build_symm(c);
+    bool changed = false;
+    if (known(K_HIDDEN) && components(A) > 1) {
+      if (!c.contains("trip")) c["trip"] = json::array();
+      for (Index i = 0; i + 1 < n; ++i) c["trip"].push_back({i, i + 1, 1.0 / 64});
+      changed = true;
+    }
+    if ((known(K_HIDDEN) || known(K_GS)) && diag_has_ties(A)) {
+      // tied diagonal entries + symmetric structure: exactly parallel corrections / symmetry-hidden roots
+      std::vector<double> d = c["diag"].get<std::vector<double>>();
+      for (size_t i = 0; i < d.size(); ++i) d[i] += double(i + 1) / 4096.0;
+      c["diag"] = d;
+      changed = true;
+    }
+    if (known(K_OLSEN) && opt.at("corr") == "OLSEN" && start_uncoupled(build_symm(c), k, false)) {
+      std::vector<double> u(static_cast<size_t>(n));
+      for (size_t i = 0; i < u.size(); ++i) u[i] = (i % 3 == 1) ? -1.0 : 1.0;
+      if (!c.contains("rank1")) c["rank1"] = json::array();
+      c["rank1"].push_back({1.0 / 256, u});
+      changed = true;
+    }
+    if (changed) c["repaired"] = true;
   }
-  if (changed) c["repaired"] = true;
+  json tol = json::array();
+  if (known(K_HIDDEN)) tol.push_back(K_HIDDEN);
+  if (known(K_UNSEEN)) tol.push_back(K_UNSEEN);
+  if (!tol.empty()) c["tolerate"] = tol;
 }
 
 // F1: A = Q diag(lambda) Q^T, Q = product of Householder reflectors with dense integer vectors
@@ -460,6 +776,7 @@ static json gen_f1() {
   }
   c["house"] = hs;
   c["opt"] = gen_opt(false, k, n, 5, 100);
+  apply_known(c, false);
   return c;
 }
 
@@ -494,6 +811,7 @@ static json gen_f2() {
   c["offscale"] = pick<double>({0.05, 0.05, 0.025, 0.01, 0.001});
   json o = gen_opt(true, k, n, 50, 50);
   c["opt"] = o;
+  apply_known(c, false);
   return c;
 }
 
@@ -536,7 +854,7 @@ static json gen_f3() {
   }
   if (rbool(40)) c["offscale"] = pick<double>({0.05, 0.25, 1.0, 4.0});
   c["opt"] = gen_opt(false, k, n, 5, 100);
-  make_irreducible_if_known(c);
+  apply_known(c, false);
   return c;
 }
 
@@ -559,7 +877,7 @@ static json gen_large() {
   for (auto &v : u) v = rfrac(-16, 16, 16);
   c["rank1"] = json::array({json::array({rfrac(1, 8, 64), u})});
   c["opt"] = gen_opt(false, k, n, 20, 100);
-  make_irreducible_if_known(c);
+  apply_known(c, false);
   return c;
 }
 
@@ -588,7 +906,7 @@ static json gen_f4() {
   c["diag"] = d;
   c["trip"] = trip;
   c["opt"] = gen_opt(false, k, n, 30, 100);
-  if (known(K_HIDDEN)) c["skip_lowest_claim"] = true;  // search continues behind the confirmed finding
+  apply_known(c, true);  // stays reducible; with the finding known the case carries "tolerate" and the search continues
   return c;
 }
 
@@ -602,22 +920,25 @@ static Result run_symm(const json &c) {
   }
   std::string fam = c.value("fam", "?");
   r.cls("family:" + fam);
-  if (c.value("repaired", false)) r.cls("excluded-known:reducible-or-tied-diagonal(repaired)");
+  if (c.value("repaired", false)) r.cls("excluded-known:reducible/tied-diagonal/uncoupled-olsen-start(repaired)");
+  if (c.value("fitted", false)) r.cls("excluded-known:basis-outgrows-n(neigen-lowered)");
   Run R = run_solver(A, k, c.at("opt"), false);
-  if (R.threw) {
-    if (R.what.find("Linear dependencies in Gram-Schmidt") != std::string::npos) {
-      if (fam == "F2") {
-        r.fail("Davidson/F2-no-success", "diagonally dominant matrix: solver throws '" + R.what + "'");
-        return r;
-      }
-      r.discard = true;  // documented throw
-      return r;
-    }
-    r.fail("Davidson/exception", "solve() throws: " + R.what);
+  Ctx X{c, A, k, false, R};
+  if (R.died) {
+    fail_attr(r, X, "Davidson/abort", "solver process died (" + R.what + ")");
     return r;
   }
-  bool claim_lowest = !c.value("skip_lowest_claim", false);
-  check_symm(r, c, A, R, claim_lowest, fam == "F2");
+  if (R.threw) {
+    if (fam == "F2") {
+      fail_attr(r, X, "Davidson/F2-no-success", "diagonally dominant matrix: solve() throws '" + R.what + "'");
+      return r;
+    }
+    // nothing is returned and no status is claimed: no clause of the statement is touched
+    r.cls(R.what.find("Linear dependencies in Gram-Schmidt") != std::string::npos ? "throw:linear-dependencies(documented)"
+                                                                                   : "throw:" + R.what.substr(0, 48));
+    return r;
+  }
+  check_symm(r, c, A, R, fam == "F2");
   return r;
 }
 
@@ -641,6 +962,12 @@ static void build_ham(const json &c, Mat &Ab, Mat &Bb) {
       NB(i, j) += v;
       NB(j, i) += v;
     }
+  }
+  if (c.contains("denseA")) {
+    double coef = c["denseA"];
+    for (Index i = 0; i < m; ++i)
+      for (Index j = 0; j < m; ++j)
+        if (i != j) NA(i, j) += coef * ((i % 3 == 1) ? -1.0 : 1.0) * ((j % 3 == 1) ? -1.0 : 1.0);
   }
   std::vector<double> d = c.at("dA").get<std::vector<double>>();
   // scale the couplings so that A+B and A-B are strictly diagonally dominant with positive diagonal => SPD
@@ -684,6 +1011,25 @@ static json gen_ham() {
   c["tripB"] = tb;
   c["dom"] = pick<double>({0.01, 0.05, 0.2, 0.5, 0.9});
   c["opt"] = gen_opt(false, k, 2 * m, 10, 100);
+  if (known(K_GS)) {
+    json &opt = c["opt"];
+    while (max_cols(opt, k, 2 * m) > 2 * m && k > 1) --k;
+    if (max_cols(opt, k, 2 * m) > 2 * m) {
+      opt["space"] = 0;
+      opt["upd"] = "min";
+    }
+    c["neigen"] = k;
+  }
+  if (known(K_OLSEN) && c["opt"].at("corr") == "OLSEN") {
+    Mat Ab, Bb;
+    build_ham(c, Ab, Bb);
+    Mat H(2 * m, 2 * m);
+    H << Ab, Bb, -Bb, -Ab;
+    if (start_uncoupled(H, k, true)) {
+      c["denseA"] = 1.0 / 64;
+      c["repaired"] = true;
+    }
+  }
   return c;
 }
 
@@ -711,10 +1057,16 @@ static Result run_ham(const json &c) {
   r.cls(std::string("tol:") + opt.at("tol").get<std::string>());
   r.cls(fmt("dom:%.2f", c.at("dom").get<double>()));
   if (opt.value("mf", false)) r.cls("matrix-free");
+  if (c.value("repaired", false)) r.cls("excluded-known:uncoupled-olsen-start(repaired)");
   Run R = run_solver(H, k, opt, true);
+  Ctx X{c, H, k, true, R};
+  if (R.died) {
+    fail_attr(r, X, "Davidson/abort", "HAM: solver process died (" + R.what + ")");
+    return r;
+  }
   if (R.threw) {
-    // nothing is returned -> the clause about returned values is not touched; counted as discard
-    r.discard = true;
+    // nothing is returned -> the clause about returned values is not touched
+    r.cls("throw:" + R.what.substr(0, 48));
     return r;
   }
   // oracle: H = J M is similar to the symmetric S = M^1/2 J M^1/2 (M SPD)
@@ -752,21 +1104,26 @@ static Result run_ham(const json &c) {
     return r;
   }
   double slack = 4 * U * H.norm() * double(n + (R.iters + 1) * (space + 2 * k) + 10);
+  std::string cfg = fmt(" (HAM m=%ld neigen=%ld %s/%s/%s space=%ld iter_max=%ld iters=%ld dom=%.2f%s)", long(m), long(k),
+                        opt.at("corr").get<std::string>().c_str(), opt.at("upd").get<std::string>().c_str(),
+                        opt.at("tol").get<std::string>().c_str(), long(space), long(opt.at("iter").get<Index>()), long(R.iters),
+                        c.at("dom").get<double>(), opt.value("mf", false) ? " matrix-free" : "");
+  if (max_cols(opt, k, n) > n) r.cls("basis-may-outgrow-n");
   if (R.info == Eigen::Success) {
     r.cls("Success");
     Mat Res = H * R.vecs - R.vecs * R.lambda.asDiagonal();
     for (Index i = 0; i < k; ++i) {
       if (!std::isfinite(R.lambda(i)) || !R.vecs.col(i).allFinite()) {
-        r.fail("Davidson/non-finite", "HAM: non-finite root although Success");
+        fail_attr(r, X, "Davidson/non-finite", "HAM: non-finite root although Success" + cfg);
         return r;
       }
       if (std::fabs(R.vecs.col(i).norm() - 1) > 1e-12) {
-        r.fail("Davidson/normalisation", fmt("HAM: |v_%ld| = %.17g", long(i), R.vecs.col(i).norm()));
+        fail_attr(r, X, "Davidson/normalisation", fmt("HAM: |v_%ld| = %.17g", long(i), R.vecs.col(i).norm()) + cfg);
         return r;
       }
       double rn = Res.col(i).norm();
       if (!(rn < tol + slack)) {
-        r.fail("Davidson/residual", fmt("HAM root %ld: |H v - lambda v| = %.6e, tolerance %.1e (+%.2e)", long(i), rn, tol, slack));
+        fail_attr(r, X, "Davidson/residual", fmt("HAM Success, root %ld: |H v - lambda v| = %.6e, tolerance %.1e (+%.2e)", long(i), rn, tol, slack) + cfg);
         return r;
       }
     }
@@ -775,18 +1132,17 @@ static Result run_ham(const json &c) {
     Eigen::JacobiSVD<Mat> svd(W);
     double smin = svd.singularValues()(k - 1);
     if (!(smin > 0)) {
-      r.fail("Davidson/ham-dependent-vectors", "HAM: returned vectors are linearly dependent");
+      fail_attr(r, X, "Davidson/ham-dependent-vectors", "HAM: returned vectors are linearly dependent" + cfg);
       return r;
     }
-    double bound = std::sqrt(2.0) * (Mh * Res).norm() / smin + eig_abs + slack;
+    double bound = std::sqrt(2.0 * double(k)) * std::sqrt(mmax) * (tol + slack) / smin + eig_abs;
     std::vector<double> got(R.lambda.data(), R.lambda.data() + k);
     std::sort(got.begin(), got.end());
     for (Index i = 0; i < k; ++i) {
       if (std::fabs(got[size_t(i)] - pos[size_t(i)]) > bound) {
-        r.fail("Davidson/ham-not-lowest-positive",
-               fmt("HAM Success: %ld-th smallest returned value %.12g, %ld-th lowest positive eigenvalue %.12g (bound %.3e, m=%ld "
-                   "neigen=%ld iters=%ld)",
-                   long(i), got[size_t(i)], long(i), pos[size_t(i)], bound, long(m), long(k), long(R.iters)));
+        fail_attr(r, X, "Davidson/ham-not-lowest-positive",
+                  fmt("HAM Success: %ld-th smallest returned value %.12g, %ld-th lowest positive eigenvalue %.12g (permitted deviation %.3e)",
+                      long(i), got[size_t(i)], long(i), pos[size_t(i)], bound) + cfg);
         return r;
       }
     }
@@ -801,11 +1157,11 @@ static Result run_ham(const json &c) {
         continue;
       }
       if (!(Res.col(i).norm() < tol + slack)) {
-        r.fail("Davidson/unconverged-root-returned", fmt("HAM NoConvergence: root %ld not zeroed, residual %.3e", long(i), Res.col(i).norm()));
+        fail_attr(r, X, "Davidson/unconverged-root-returned", fmt("HAM NoConvergence: root %ld not zeroed, residual %.3e", long(i), Res.col(i).norm()) + cfg);
         return r;
       }
     }
-    if (zeroed == 0) r.fail("Davidson/status", "HAM: NoConvergence but all roots returned as converged");
+    if (zeroed == 0) fail_attr(r, X, "Davidson/status", "HAM: NoConvergence but all roots returned as converged" + cfg);
   }
   return r;
 }
@@ -820,6 +1176,7 @@ int main(int argc, char **argv) {
   bool large = false;
   for (int i = 1; i < argc; ++i)
     if (std::string(argv[i]) == "--large") large = true;
-  if (large) subs.push_back({"large", gen_large, run_symm, 0.1, 100, nullptr});
+  // always registered (replay needs it); without --large it gets a single case
+  subs.push_back({"large", gen_large, run_symm, large ? 0.1 : 0.0, 100, nullptr});
   return harness_main(argc, argv, "C09", subs);
 }
